@@ -28,6 +28,7 @@ func Harness_C09_WithdrawStep() {
 	}
 	base0, baseErr0 := k.DenomPairs.Get(ctx, D)
 	xs, dx := verifSymStr("acctX"), verifSymStr("denomX")
+	verifAssume(sdk.ValidateDenom(dx) == nil) // only valid denoms can be held (the bank panics on others)
 	x, xOK := k.addr(xs)
 	verifAssume(xOK)
 	balX0, supX0 := k.bal(ctx, x, dx), k.sup(ctx, dx)
